@@ -223,4 +223,64 @@ theorem c02_kafka_items_le_bytes : ∀ (fuel : Nat) (s : Bytes) (open_ : List Re
 /-- not vacuous: the bound is about real work - an ApiVersions v0 request (12 bytes) is accepted and registered -/
 example : (dissectClient 5 [0, 0, 0, 10, 0, 18, 0, 0, 0, 0, 0, 7, 255, 255] []).1.length = 1 := by decide
 
+/-! ### the fuel the driver gives (`length + 1`) is enough: more fuel changes nothing -/
+
+theorem dissectClient_nil_eq (n : Nat) (acc : List Req) : dissectClient n [] acc = (acc, .eof) := by
+  cases n with
+  | zero => rfl
+  | succ n =>
+    unfold dissectClient
+    have : readRequest [] = .error .eof := by rfl
+    rw [this]
+
+/-- **C02 (Kafka, totality of the client half).** With fuel above the length of the half the dissection ends because
+    the stream does (or a message is refused), never because the fuel does: one more unit changes nothing. -/
+theorem c02_kafka_client_fuel_suffices : ∀ (n : Nat) (s : Bytes) (acc : List Req), s.length < n →
+    dissectClient (n + 1) s acc = dissectClient n s acc := by
+  intro n
+  induction n with
+  | zero => intro s acc h; omega
+  | succ n ih =>
+    intro s acc h
+    rw [dissectClient, dissectClient]
+    cases hr : readRequest s with
+    | error e => rfl
+    | ok v =>
+      obtain ⟨q, rest⟩ := v
+      simp only []
+      have hp := readRequest_progress s q rest hr
+      by_cases hs8 : s.length < 8
+      · have hnil : rest = [] := List.eq_nil_of_length_eq_zero (by omega)
+        rw [hnil, dissectClient_nil_eq, dissectClient_nil_eq]
+      · exact ih rest _ (by omega)
+
+theorem dissectServer_nil_eq (n : Nat) (open_ : List Req) (acc : List Item) :
+    dissectServer n [] open_ acc = (acc, open_, .eof) := by
+  cases n with
+  | zero => rfl
+  | succ n =>
+    unfold dissectServer
+    have : readResponse open_ [] = .error .eof := by rfl
+    rw [this]
+
+/-- the same for the server half -/
+theorem c02_kafka_server_fuel_suffices : ∀ (n : Nat) (s : Bytes) (open_ : List Req) (acc : List Item), s.length < n →
+    dissectServer (n + 1) s open_ acc = dissectServer n s open_ acc := by
+  intro n
+  induction n with
+  | zero => intro s open_ acc h; omega
+  | succ n ih =>
+    intro s open_ acc h
+    rw [dissectServer, dissectServer]
+    cases hr : readResponse open_ s with
+    | error e => rfl
+    | ok v =>
+      obtain ⟨it, open', rest⟩ := v
+      simp only []
+      have hp := readResponse_progress open_ s it open' rest hr
+      by_cases hs4 : s.length < 4
+      · have hnil : rest = [] := List.eq_nil_of_length_eq_zero (by omega)
+        rw [hnil, dissectServer_nil_eq, dissectServer_nil_eq]
+      · exact ih rest _ _ (by omega)
+
 end KsVerif.Proofs.C02Kafka
